@@ -146,18 +146,19 @@ pub fn gen_script(c: &mut Cur, p: &Profile, flavor: Flavor, nleaves_hint: usize)
     let mut script = Vec::with_capacity(len + 1);
     for _ in 0..len {
         let s = match flavor {
-            Flavor::S => c.weighted(&[(0u8, 30), (3, 38), (1, 12), (2, if p.sib_wakes { 8 } else { 0 }), (4, 4)]),
-            _ => c.weighted(&[(0u8, 60), (1, 22), (2, if p.sib_wakes { 14 } else { 0 })]),
+            Flavor::S => c.weighted(&[(0u8, 30), (3, 34), (1, 12), (2, if p.sib_wakes { 8 } else { 0 }), (4, 4), (5, 4)]),
+            _ => c.weighted(&[(0u8, 60), (1, 22), (2, if p.sib_wakes { 14 } else { 0 }), (5, 3)]),
         };
         let step = match s {
             0 => Step::Later,
             1 => Step::SelfWake,
             2 => Step::WakeSib(c.byte() % (nleaves_hint.max(1) as u8).max(1)),
             3 => Step::Yield(true),
+            5 => Step::WakeYield,
             _ => Step::End,
         };
         script.push(step);
-        if step == Step::End {
+        if step == Step::End || (step == Step::WakeYield && flavor != Flavor::S) {
             break;
         }
     }
